@@ -53,6 +53,10 @@ var t1Whole = []string{
 	"package g\nimport \"strings\"\nimport m \"math\"\ntype P Peg {}\nS <- 'a' { _ = strings.ToUpper(\"x\"); _ = m.Pi }\n",
 	"package g\nimport (\n\"strings\"\nm \"math\"\n)\ntype P Peg {}\nS <- 'a' { _ = strings.ToUpper(\"x\"); _ = m.Pi }\n",
 	"package g\nimport \"unicode/utf8\"\ntype P Peg {}\nS <- 'a' { _ = utf8.RuneError }\n",
+	"package g\nimport f \"fmt\"\ntype P Peg {}\nS <- 'a' { _ = f.Sprint(1) }\n",
+	"package g\nimport sc \"strconv\"\nimport \"os\"\ntype P Peg {}\nS <- 'a' { _ = sc.Itoa(1); _ = os.Args }\n",
+	"package g\nimport a \"strings\"\nimport b \"strings\"\ntype P Peg {}\nS <- 'a' { _ = a.ToUpper(\"x\"); _ = b.ToLower(\"x\") }\n",
+	"package g\nimport \"strings\"\nimport up \"strings\"\ntype P Peg {}\nS <- 'a' { _ = strings.ToUpper(\"x\"); _ = up.ToLower(\"x\") }\n",
 	"package g\ntype P Peg {\n a int\n b struct{ c int }\n}\nS <- 'a'\n",
 	"package g\ntype P Peg {}\nS <- A\n   / B\nA <- 'a'\nB <- 'b'\n",
 	"package g\ntype P Peg {}\nS <- A B\nA <- 'a' # one\n# between\nB <- 'b' // two\n",
